@@ -224,8 +224,8 @@ pub fn dispatch(kind: &str, v: &Value) -> Option<Outcome> {
     }
 }
 
-pub fn run(ctx: &Ctx) -> i32 {
-    let mut st = ctx.run_replays(&dispatch);
+pub fn campaigns(ctx: &Ctx) -> Stats {
+    let mut st = Stats::default();
     let t = ctx.tier;
     let shapes = all_shapes(4, 3);
     let cases = enumerated(&shapes);
@@ -245,10 +245,32 @@ pub fn run(ctx: &Ctx) -> i32 {
             _ => ScalarCase::SoftmaxRows(l(VKind::Small)),
         })
     }));
+    // softmax / exp / sigmoid far from zero: rows at very different offsets (all finite in f32 and f64)
+    st.merge(ctx.run_indexed("wide-range-rows", 6 * 5 * 5 * 3, None, |i| {
+        let shapes: [&[usize]; 6] = [&[3], &[2, 3], &[3, 2], &[2, 2, 2], &[4, 1, 3], &[2, 3, 1]];
+        let offs = [-60.0, -25.0, 0.0, 30.0, 55.0];
+        let d = shapes[(i % 6) as usize];
+        let (o1, o2) = (offs[((i / 6) % 5) as usize], offs[((i / 30) % 5) as usize]);
+        let l = *d.last().unwrap();
+        let n = numel(d);
+        let vals: Vec<f64> = (0..n).map(|j| (if (j / l) % 2 == 0 { o1 } else { o2 }) + ((j * 7) % 5) as f64 * 0.5 - 1.0).collect();
+        let leaf = LeafSpec { dims: d.to_vec(), vals, tracked: false };
+        Some(match (i / 150) % 3 {
+            0 => Case7::S(ScalarCase::SoftmaxRows(leaf)),
+            1 => Case7::F(FwdCase { op: OpKind::Softmax, leaves: vec![leaf], force_exact: None }),
+            _ => Case7::F(FwdCase { op: if o1 > o2 { OpKind::Exp } else { OpKind::Sigmoid }, leaves: vec![leaf], force_exact: None }),
+        })
+    }));
     let (max_rank, max_size, total) = t.pick((4usize, 6usize, 8000u64), (5, 8, 200000));
     let nops = 6 + map_ops().len();
     let strat = move || (prop::collection::vec(1..=max_size, 1..=max_rank), 0..nops, any::<u8>(), -3.0f64..4.0, any::<u64>()).prop_map(|(dims, opi, p, e, vseed)| R7 { dims, opi, p, e: (e * 64.0).round() / 64.0, vseed }).boxed();
     st.merge(ctx.run_prop("random-shapes-and-values", total, strat, random_case));
+    st
+}
+
+pub fn run(ctx: &Ctx) -> i32 {
+    let mut st = ctx.run_replays(&dispatch);
+    st.merge(campaigns(ctx));
     finish(
         ctx,
         st,
